@@ -151,31 +151,30 @@ func (sc *Scanner) scanDecimal(ch int, buf *bytes.Buffer) error {
 }
 
 func (sc *Scanner) scanNumber(ch int, buf *bytes.Buffer) error {
-	if ch == '0' { // octal
-		if sc.Peek() == 'x' || sc.Peek() == 'X' {
-			writeChar(buf, ch)
+	if ch == '0' && (sc.Peek() == 'x' || sc.Peek() == 'X') {
+		writeChar(buf, ch)
+		writeChar(buf, sc.Next())
+		hasvalue := false
+		for isDigit(sc.Peek()) {
 			writeChar(buf, sc.Next())
-			hasvalue := false
-			for isDigit(sc.Peek()) {
-				writeChar(buf, sc.Next())
-				hasvalue = true
-			}
-			if !hasvalue {
-				return sc.Error(buf.String(), "illegal hexadecimal number")
-			}
-			return nil
-		} else if sc.Peek() != '.' && isDecimal(sc.Peek()) {
-			ch = sc.Next()
+			hasvalue = true
 		}
+		if !hasvalue {
+			return sc.Error(buf.String(), "illegal hexadecimal number")
+		}
+		return nil
 	}
 	sc.scanDecimal(ch, buf)
-	if sc.Peek() == '.' {
+	if ch != '.' && sc.Peek() == '.' {
 		sc.scanDecimal(sc.Next(), buf)
 	}
 	if ch = sc.Peek(); ch == 'e' || ch == 'E' {
 		writeChar(buf, sc.Next())
 		if ch = sc.Peek(); ch == '-' || ch == '+' {
 			writeChar(buf, sc.Next())
+		}
+		if !isDecimal(sc.Peek()) {
+			return sc.Error(buf.String(), "malformed number")
 		}
 		sc.scanDecimal(sc.Next(), buf)
 	}
